@@ -55,7 +55,8 @@ def _r1(prog, rep):
     lw_candidates = set()
     # comparisons that only look at the shape of the width list (how many widths, how many lines so far) belong to
     # the line-width lookup, which R2 checks as a value; they are not break conditions
-    shape_atoms = {("call", "[]::len", (m.LW,)), ("call", "Vec::len", (m.acc_state,)), ("call", "[]::len", (m.acc_state,))}
+    shape_atoms = {("call", "[]::len", (m.LW,)), ("call", "Vec::len", (m.LW,)), ("call", "Vec::len", (m.acc_state,)),
+                   ("call", "[]::len", (m.acc_state,))}
     lookup_guard = lambda nf: bool(nf[1].atoms()) and nf[1].atoms() <= shape_atoms
     for tr in m.trans:
         for f in tr.facts:
